@@ -31,8 +31,9 @@ FD criteria (R(h) residual of the difference scheme, T = sum of the absolute val
 
 Known suspected finding (DESIGN 3.7 k): the far-field kernels use only Re k.  For complex k the far-field operator
 is compared with the closed form / limit / translation law for the *complex* k; a disagreement is reported under the
-key `farfield-ignores-imag-k` together with the observation whether the value equals the closed form with Im k
-dropped from the exponent.
+key `farfield-ignores-imag-k` -- only when the observed value equals (to rounding) the closed form with Im k
+dropped in the kernel, i.e. when the ignored Im k is the only cause; any other far-field discrepancy (real k, or
+complex k with a value that is not the Im-k-dropped formula) gets its own key `farfield-{sum,limit,translation}-...`.
 """
 import math
 import os
@@ -185,6 +186,18 @@ def closed_form(fam, ref, c, uv, w, X, par):
     K = scalar_kernel(fam, X, Y, NY, par)
     t = K * (W * F[0])[None, :]
     return t.sum(axis=1)[None, :], np.abs(t).sum(axis=1)
+
+
+def closed_form_imag_k_dropped(fam, ref, c, uv, w, X, k):
+    """The far-field sums as the code computes them for complex k (finding `farfield-ignores-imag-k`): Re k in the
+    kernel (exponent, and the -ik factor of the double layer), the complex k only in the Maxwell prefactor ik."""
+    if fam in ("ff-sl", "ff-dl"):
+        return closed_form(fam, ref, c, uv, w, X, k.real)[0]
+    Y, W, NY = ref.nodes(uv, w)
+    F, D = ref.density(np.asarray(c), uv)
+    t = maxwell_terms(fam, X, Y, F.astype(complex), D.astype(complex), k)
+    ratio = np.exp(-1j * k.real * (X.T @ Y)) / np.exp(-1j * k * (X.T @ Y))
+    return (t * ratio[None] * W[None, None, :]).sum(axis=2)
 
 
 # ----------------------------------------------------------------------------------------------------------------
@@ -477,25 +490,15 @@ class Runner:
             if not err <= TOL_SUM:
                 self.ff["disagree"] += 1
                 j = int(np.argmax(np.sqrt((np.abs(lib - val) ** 2).sum(axis=0)) / scale))
-                if fam.startswith("maxwell"):
-                    # as implemented: Re k in the exponent, complex k in the prefactor
-                    Y, W, NY = ref.nodes(uv, w)
-                    F, D = ref.density(c, uv)
-                    t = maxwell_terms(fam, X, Y, F.astype(complex), D.astype(complex), par)
-                    g_c = np.exp(-1j * par * (X.T @ Y))
-                    g_r = np.exp(-1j * par.real * (X.T @ Y))
-                    alt = (t * (g_r / g_c)[None] * W[None, None, :]).sum(axis=2)
-                elif fam == "ff-sl":
-                    alt, _ = closed_form(fam, ref, c, uv, w, X, par.real)
-                else:
-                    alt, _ = closed_form(fam, ref, c, uv, w, X, par.real)
+                alt = closed_form_imag_k_dropped(fam, ref, c, uv, w, X, par)
                 alt_err = float((np.sqrt((np.abs(lib - alt) ** 2).sum(axis=0)) / scale).max())
                 if not any(x["operator"] == fam for x in self.ff["examples"]):
                     self.ff["examples"].append(dict(info, direction=X[:, j].tolist(), observed=str(lib[:, j].tolist()),
                                                     expected=str(val[:, j].tolist()), rel_err=err,
                                                     rel_err_against_formula_with_Im_k_dropped=alt_err))
+                # the known finding only when the value IS the formula with Im k dropped; anything else is a new defect
                 self.cex(
-                    "farfield-ignores-imag-k",
+                    "farfield-ignores-imag-k" if alt_err <= TOL_SUM else f"farfield-sum-{fam}-{kindlab}-complex-k",
                     f"{fam} far field with complex k={par} differs from the closed-form sum of "
                     f"e^(-ik xh.y)/(4 pi) by {err:.3e} (relative to sum |terms|; tolerance {TOL_SUM:g}); it agrees to "
                     f"{alt_err:.1e} with the same formula where only Re k is used in the kernel",
@@ -636,11 +639,14 @@ class Runner:
             if not err <= TOL_LIMIT:
                 self.ff["disagree"] += 1
                 j = int(np.argmax(np.sqrt((np.abs(F - lim) ** 2).sum(axis=0)) / scale))
+                alt = closed_form_imag_k_dropped(far, ref, c, uv, w, D, k)
+                alt_err = float((np.sqrt((np.abs(F - alt) ** 2).sum(axis=0)) / scale).max())
                 self.cex(
-                    "farfield-ignores-imag-k",
+                    "farfield-ignores-imag-k" if alt_err <= TOL_SUM else f"farfield-limit-{far}-{kindlab}-complex-k",
                     f"{far} with complex k={k}: far field differs from lim r e^(-ikr) * potential(r xh) by {err:.3e} "
-                    f"(relative to sum |terms|; tolerance {TOL_LIMIT:g})",
-                    rel_err=err, direction=D[:, j].tolist(), observed=str(F[:, j].tolist()), limit=str(lim[:, j].tolist()),
+                    f"(relative to sum |terms|; tolerance {TOL_LIMIT:g}); the far field equals the closed form with Im k "
+                    f"dropped in the kernel to {alt_err:.1e}",
+                    rel_err=err, rel_err_with_imag_k_dropped=alt_err, direction=D[:, j].tolist(), observed=str(F[:, j].tolist()), limit=str(lim[:, j].tolist()),
                     coefficients=str(c.tolist()), **info, **self.geometry(sp))
             return
         self.note(f"limit:{far}", err)
@@ -679,11 +685,14 @@ class Runner:
             if not err <= TOL_TRANS:
                 self.ff["disagree"] += 1
                 j = int(np.argmax(np.sqrt((np.abs(F2 - phase[None, :] * F1) ** 2).sum(axis=0)) / scale))
+                phase_re = np.exp(-1j * k.real * (D.T @ t))
+                alt_err = float((np.sqrt((np.abs(F2 - phase_re[None, :] * F1) ** 2).sum(axis=0)) / scale).max())
                 self.cex(
-                    "farfield-ignores-imag-k",
+                    "farfield-ignores-imag-k" if alt_err <= TOL_TRANS else f"farfield-translation-{far}-{kindlab}-complex-k",
                     f"{far} with complex k={k}: translating the grid by t multiplies the far field by "
-                    f"{(F2[0, j] / F1[0, j])} instead of e^(-ik xh.t) = {phase[j]} (deviation {err:.3e})",
-                    rel_err=err, direction=D[:, j].tolist(), factor_observed=str(F2[0, j] / F1[0, j]),
+                    f"{(F2[0, j] / F1[0, j])} instead of e^(-ik xh.t) = {phase[j]} (deviation {err:.3e}); it is "
+                    f"e^(-i Re(k) xh.t) to {alt_err:.1e}",
+                    rel_err=err, rel_err_with_imag_k_dropped=alt_err, direction=D[:, j].tolist(), factor_observed=str(F2[0, j] / F1[0, j]),
                     factor_expected=str(phase[j]), coefficients=str(c.tolist()), **info, **self.geometry(sp))
             return
         self.note(f"translation:{far}", err)
